@@ -79,6 +79,10 @@ class StubPageParser:
     def process_page(self, image, page_layout):
         pid = page_layout.id
         seed = sum(ord(c) * (i + 1) for i, c in enumerate(pid)) % 251
+        # the content also depends on the IMAGE the tool handed in (make_batch gives every page its own grey value), so that a
+        # page id paired with another page's image yields outputs that differ from the uninterrupted run
+        if image is not None:
+            seed = (seed + 3 * int(image[0, 0, 0])) % 251
         region = RegionLayout("r1", np.array([[0, 0], [50, 0], [50, 10 + 10 * STUB["nlines"]], [0, 10 + 10 * STUB["nlines"]]]))
         for i in range(STUB["nlines"]):
             lg = np.full((12, 3), -20.0)
@@ -276,10 +280,16 @@ def listing(base, kinds):
     return out
 
 
+def grey_of(page_id):
+    """every input page image has its own grey value, so that stub stages can tell which image they were handed"""
+    return (sum(ord(c) * (i + 3) for i, c in enumerate(page_id)) * 7 + 11) % 256
+
+
 def make_batch(base, page_ids):
     os.makedirs(os.path.join(base, "in"))
     for p in page_ids:
-        if not cv2.imwrite(os.path.join(base, "in", p + IMG_EXT), np.zeros((30 + 10 * STUB["nlines"], 50, 3), np.uint8)):
+        grey = grey_of(p)
+        if not cv2.imwrite(os.path.join(base, "in", p + IMG_EXT), np.full((30 + 10 * STUB["nlines"], 50, 3), grey, np.uint8)):
             raise MachineryFailure("cannot write input image for page %r" % p)
     with open(os.path.join(base, "config.ini"), "w") as fh:
         fh.write("[PAGE_PARSER]\n")
